@@ -29,7 +29,7 @@ def mk_system(api, pfx):
 class EnvValue:
     """a per-environment quantity as given to a setter, with its spec-side meaning"""
 
-    def __init__(self, api, pfx, shape, dim, default_si=0, positive=False, as_bool=False):
+    def __init__(self, api, pfx, shape, dim, default_si=0, positive=False, as_bool=False, nonneg=False):
         self.api, self.shape, self.dim = api, shape, dim
         self.vals = {}
         self.as_bool = as_bool
@@ -37,6 +37,8 @@ class EnvValue:
         def new(tag):
             if as_bool:
                 return api.bool("%s_%s" % (pfx, tag))
+            if nonneg:
+                return api.real("%s_%s" % (pfx, tag), lo=0, hi=10**9)
             return api.real("%s_%s" % (pfx, tag), positive=positive)
         if shape == "scalar":
             self.vals["*"] = new("v")
@@ -94,7 +96,7 @@ def mk_network(api, S=1, E=1, dens_shapes=None, chst_shapes=None, D_shapes=None,
         us = mk_system(api, "%ss%dus" % (pfx, s)) if species_units else net.us
         dens = EnvValue(api, "%ss%ddens" % (pfx, s), (dens_shapes or ["scalar"] * S)[s], dims_of("density"))
         chst = EnvValue(api, "%ss%dchst" % (pfx, s), (chst_shapes or ["scalar"] * S)[s], None, as_bool=True)
-        D = EnvValue(api, "%ss%dD" % (pfx, s), (D_shapes or ["scalar"] * S)[s], dims_of("D"))
+        D = EnvValue(api, "%ss%dD" % (pfx, s), (D_shapes or ["scalar"] * S)[s], dims_of("D"), nonneg=True)
         species.append(N.Species(SPECIES[s], D=D.arg, density=dens.arg, chstt=chst.arg, units_system=us))
         net.dens.append(dens)
         net.chst.append(chst)
@@ -104,8 +106,8 @@ def mk_network(api, S=1, E=1, dens_shapes=None, chst_shapes=None, D_shapes=None,
     reacs = []
     for r, (eq, kfs, krs) in enumerate(reactions):
         us = mk_system(api, "%sr%dus" % (pfx, r))
-        kf = EnvValue(api, "%sr%dkf" % (pfx, r), kfs, None)
-        kr = EnvValue(api, "%sr%dkr" % (pfx, r), krs, None)
+        kf = EnvValue(api, "%sr%dkf" % (pfx, r), kfs, None, nonneg=True)
+        kr = EnvValue(api, "%sr%dkr" % (pfx, r), krs, None, nonneg=True)
         reacs.append(N.Reaction(eq, kf=kf.arg, kr=kr.arg, units_system=us))
         net.rk.append((kf, kr, us))
     net.obj = N.RDNetwork(species=species, reactions=reacs, environments=list(net.envs), units_system=net.us)
@@ -168,7 +170,7 @@ class Graph:
     pass
 
 
-def mk_graph(api, N=2, edges=((0, 1),), E=1, pfx="q", node_units=True):
+def mk_graph(api, N=2, edges=((0, 1),), E=1, pfx="q", node_units=True, own_units_nodes=None, own_units_edges=None):
     GS = api.mod("rdgraphspace")
     g = Graph()
     g.us = mk_system(api, pfx + "us")
@@ -176,7 +178,8 @@ def mk_graph(api, N=2, edges=((0, 1),), E=1, pfx="q", node_units=True):
     g.vols, g.envs, g.node_us = [], [], []
     nodes = []
     for i in range(N):
-        us = mk_system(api, "%sn%dus" % (pfx, i)) if node_units else g.us
+        own = node_units and (own_units_nodes is None or i in own_units_nodes)
+        us = mk_system(api, "%sn%dus" % (pfx, i)) if own else g.us
         v = api.real("%sn%dvol" % (pfx, i), positive=True)
         e = api.int("%sn%denv" % (pfx, i), 0, E - 1)
         nodes.append(GS.RDGraphSpaceNode(volume=v, environment=e, units_system=us))
@@ -186,7 +189,8 @@ def mk_graph(api, N=2, edges=((0, 1),), E=1, pfx="q", node_units=True):
     g.edges = []
     eds = []
     for k, (i, j) in enumerate(edges):
-        us = mk_system(api, "%se%dus" % (pfx, k)) if node_units else g.us
+        own = node_units and (own_units_edges is None or k in own_units_edges)
+        us = mk_system(api, "%se%dus" % (pfx, k)) if own else g.us
         sf = api.real("%se%dsfc" % (pfx, k), positive=True)
         ds = api.real("%se%ddst" % (pfx, k), positive=True)
         eds.append(GS.RDGraphSpaceEdge(i, j, surface=sf, distance=ds, units_system=us))
